@@ -293,7 +293,7 @@ fn check(c: &Case) -> Verdict {
 
 // ---------- the real FsLoader ----------
 
-const SHM: &str = "/dev/shm/a02-c04";
+const SHM: &str = "/dev/shm/a02/c04";
 
 fn run_fs(files: &[(String, String)], npaths: u8, tag: u64) -> Result<Out, String> {
     let dir = format!("{SHM}/{}-{tag:016x}", std::process::id());
@@ -753,5 +753,6 @@ fn main() {
         check_fallback_fs,
     );
     let _ = std::fs::remove_dir_all(SHM);
+    let _ = std::fs::remove_dir("/dev/shm/a02"); // only when empty
     ck.finish()
 }
